@@ -94,7 +94,7 @@ for m in spec:
     except Exception as exc:
         print("SKIP", m["target"], type(exc).__name__, str(exc)[:120]); continue
     if not existing:
-        with open(os.path.join(refmodels.DIR, m["target"].replace(":", ".") + ".py"), "w") as h:
+        with open(os.path.join(refmodels.DIR, m["target"].replace(":", ".").replace("/", ".") + ".py"), "w") as h:
             h.write(text)
     if key not in have:
         index.append(m); have.add(key)
